@@ -147,6 +147,9 @@ impl Monitor for Mon {
             // restore-from-storage belongs to C20; never generated here
         }
         self.fcnt_up_before = rec.fcnt_up_after;
+        if self.frames_checked == 97 {
+            stats.bump("probe.long-unanswered-run");
+        }
         None
     }
 }
@@ -255,7 +258,7 @@ impl Property for C06 {
         "fault_enumeration"
     }
     fn rule(&self) -> String {
-        "Runs 0..539 walk a radio fault over every radio-call position 0..11 x 5 transaction shapes x 3 front-ends x 3 start counters (depth-3 histories); the remaining runs are seeded random histories of send / RX1-hit / RX2-hit / timeout / rejected frame / Class C reception / OTAA re-join with a radio fault in ~40% of the transactions and start counters drawn from {0,1,0xFFFE,0xFFFF,0x10000,2^32-3..2^32-1}. A run is non-trivial when at least one data uplink reached the radio and was decoded; distinct = distinct trace-shape hash (event kinds, window outcomes, results; not payload bytes)."
+        "Runs 0..539 walk a radio fault over every radio-call position 0..11 x 5 transaction shapes x 3 front-ends x 3 start counters (depth-3 histories); the remaining runs are seeded random histories (4% of them 97-170 consecutive unanswered uplinks, so that ADR back-off steps fall inside the history) of send / RX1-hit / RX2-hit / timeout / rejected frame / Class C reception / OTAA re-join with a radio fault in ~40% of the transactions and start counters drawn from {0,1,0xFFFE,0xFFFF,0x10000,2^32-3..2^32-1}. A run is non-trivial when at least one data uplink reached the radio and was decoded; distinct = distinct trace-shape hash (event kinds, window outcomes, results; not payload bytes)."
             .into()
     }
     fn assumptions(&self) -> Vec<String> {
@@ -284,6 +287,22 @@ impl Property for C06 {
         let fault_pct = *r.pick(&[0u64, 20, 40, 70]);
         let n = r.range(2, 10) as usize;
         let mut ops = Vec::new();
+        if !cfg.otaa && r.chance(1, 25) {
+            // a long run of unanswered uplinks: ADR back-off steps at 96, 128, 160 (from the default,
+            // i.e. lowest, data rate or from a higher one), with an occasional radio fault
+            if r.chance(1, 2) {
+                ops.push(Op::SetDr(*r.pick(&crate::refregion::uplink_drs(cfg.region))));
+            }
+            let len = r.range(97, 170);
+            for i in 0..len {
+                let mut t = Txn::default();
+                if r.chance(1, 60) {
+                    t.fault = Some(Fault { pos: r.below(10) as u16 });
+                }
+                ops.push(Op::Send { port: 1, len: (i % 5) as u8, confirmed: false, txn: t });
+            }
+            return MacCase { cfg, ops, knob: 0 };
+        }
         if cfg.otaa {
             let mut t = Txn::default();
             if r.chance(1, 2) {
@@ -326,6 +345,6 @@ impl Property for C06 {
         crate::self_test_refs()
     }
     fn expected_probes(&self, _tier: Tier) -> Vec<&'static str> {
-        vec!["probe.frame-at-failed-tx", "probe.op-ended-in-radio-error", "probe.uplink-epoch-rollover", "probe.uplink-near-2^32", "probe.session-expired", "probe.new-session", "fault.tx", "fault.setup_rx", "fault.rx_single", "fault.low_power", "fault.nb_tx_request", "fault.nb_rx_request", "fault.nb_cancel_rx"]
+        vec!["probe.frame-at-failed-tx", "probe.op-ended-in-radio-error", "probe.uplink-epoch-rollover", "probe.uplink-near-2^32", "probe.long-unanswered-run", "probe.session-expired", "probe.new-session", "fault.tx", "fault.setup_rx", "fault.rx_single", "fault.low_power", "fault.nb_tx_request", "fault.nb_rx_request", "fault.nb_cancel_rx"]
     }
 }
